@@ -288,8 +288,20 @@ def gen_exit_after(rng, seed):
         T = T          # deadline is absolute: epoch + T
     p.by_id[x]['config']['exit_after'] = val
     p.by_id[x]['beh']['proc_ms'] = [rng.choice([0, 30, 250])]
+    variant = 'plain'
+    if rng.random() < 0.4 and p.by_id[x]['config'].get('outputs'):
+        # the filter gives up on unanswered sends (outputs_timeout) while its consumers are late or absent around the deadline
+        variant = 'outputs-timeout'
+        p.by_id[x]['config']['outputs_timeout'] = rng.choice([100, 150, 300])
+        for e_ in p.consumers_of(x):
+            p.by_id[e_['cons']]['start_ms'] = rng.choice([5000, -1])      # late, or never started
+    elif rng.random() < 0.3 and p.by_id[x]['config'].get('sources'):
+        variant = 'sources-timeout'
+        p.by_id[x]['config']['sources_timeout'] = rng.choice([100, 250])
+        for e_ in p.inputs_of(x):
+            p.by_id[e_['pub']]['start_ms'] = rng.choice([5000, -1])
     link = {'max_delay_ms': rng.choice([0, 10, 50]), 'conn_ms': [0, 30], 'sub_ms': [0, 20]}
-    return scenarios.finish(p, seed, link, 8000, family='exit_after', x=x, T=T, form=form, val=val, stop_when_all_done=False)
+    return scenarios.finish(p, seed, link, 8000, family='exit_after', x=x, T=T, form=form, val=val, variant=variant, stop_when_all_done=False)
 
 
 def judge_exit_after(w, scn, res):
@@ -297,6 +309,7 @@ def judge_exit_after(w, scn, res):
     x, T = scn['x'], scn['T']
     res.count('exit_after_cases')
     res.count('exit_after_form:' + scn['form'])
+    res.count('exit_after_variant:' + scn.get('variant', 'plain'))
     e = next((e for e in w.clog if e['node'] == x and e['ev'] in ('run-returned', 'run-raised')), None)
     enter = next((e for e in w.clog if e['node'] == x and e['ev'] == 'run-enter'), None)
     if e is None:
